@@ -16,3 +16,5 @@ def check(ctx):
     regen.source_registration(ctx)
     regen.regen_inputs(ctx)
     regen.cache_replay(ctx)
+    from ..rules import pathops
+    pathops.check(ctx)
